@@ -79,6 +79,37 @@ def antecedents(ctx, crate, crs, tag):
         ctx.ob(R, b.key, "visited-clause-is-recorded", ok, where_call(b, vi),
                "every clause whose literals feed the learnt clause is recorded as its antecedent in the same iteration" if ok else why)
     ctx.ob(R, b.key, "why-list-is-stored", bool(wi) and bool(pushes), b.loc(), "the collected antecedents are stored in learnt_why")
+    # inside the literal visitor: a literal that is new (seen.insert == true) is either counted as a cause at the current
+    # level or becomes a literal of the learnt clause - nothing is silently dropped (the report follows learnt literals)
+    for cb in crate.bodies:
+        if cb.parent != b.path or cb.kind != "Closure":
+            continue
+        ups = [u["name"] for u in (cb.d.get("upvars") or [])]
+        if "seen" not in ups or "learnt" not in ups:
+            continue
+        ccs = q.conds(cb, crs)
+        k_learnt = ups.index("learnt")
+        acct = set()
+        for i, t in cb.calls():
+            if t.get("f") and t["f"]["name"] == "push":
+                d = cb.origin(t["args"][0])
+                if any(isinstance(e, dict) and e.get("f") == k_learnt for e in d.get("proj", [])):
+                    acct.add(i)
+        for i, j, st in cb.assigns():
+            pr = [e for e in st["p"].get("p", []) if isinstance(e, dict) and "f" in e]
+            if st["p"]["l"] == 1 and pr and pr[0]["f"] < len(ups) and ups[pr[0]["f"]] == "causes_at_current_level":
+                acct.add(i)
+        ok = False
+        for c in ccs:
+            if c.kind == "bool" and c.src and c.src.get("k") == "call" and c.src["t"]["f"]["name"] == "insert":
+                tr = c.target(True)
+                esc = cb.reachable([tr], avoid=acct)
+                ok = bool(acct) and tr not in acct and not any(r in esc for r in cb.return_blocks())
+                if tr in acct:
+                    ok = True
+        ctx.ob(R, cb.key, "every-new-literal-is-counted-or-learnt", ok, cb.loc(),
+               "a newly seen literal is either a cause at the current level or is added to the learnt clause" if ok else
+               "a visited literal can be dropped from the learnt clause: the clauses that falsified it never reach the conflict report")
 
 
 def backward_walk(ctx, crate, crs, tag):
